@@ -39,13 +39,19 @@ func runC08Git(c *Ctx) {
 	extKind := []string{"", "", "rot", "gz", "b64"}[t.Choose(5, "pointer-extension")]
 	extClean := map[string]string{"rot": "tr A-Za-z N-ZA-Mn-za-m", "gz": "gzip -nc", "b64": "base64"}[extKind]
 	extSmudge := map[string]string{"rot": "tr A-Za-z N-ZA-Mn-za-m", "gz": "gzip -dc", "b64": "base64 -d"}[extKind]
+	// the name may contain a hyphen, the priority is any non-negative number
+	extName := extKind
+	if t.Bool(1, 2, "hyphenated-extension-name") {
+		extName = extKind + "-fold"
+	}
+	extPrio := []string{"0", "5", "12"}[t.Choose(3, "extension-priority")]
 	setExt := func(dir string) {
 		if extKind == "" {
 			return
 		}
-		w.MustGit(dir, "config", "lfs.extension."+extKind+".clean", extClean)
-		w.MustGit(dir, "config", "lfs.extension."+extKind+".smudge", extSmudge)
-		w.MustGit(dir, "config", "lfs.extension."+extKind+".priority", "0")
+		w.MustGit(dir, "config", "lfs.extension."+extName+".clean", extClean)
+		w.MustGit(dir, "config", "lfs.extension."+extName+".smudge", extSmudge)
+		w.MustGit(dir, "config", "lfs.extension."+extName+".priority", extPrio)
 	}
 	// the extension may have been in use when the files were committed, or
 	// only be configured in the clone that re-adds the pointers
